@@ -858,7 +858,15 @@ impl<'a> Gen<'a> {
                     if self.rng.chance(1, 2) {
                         format!("{}(--{})", f, self.ident())
                     } else {
-                        format!("{}(--{},{}{})", f, self.ident(), self.ows(), self.value(depth + 1))
+                        // the fallback is an ordinary value: an rpx length there must be converted like anywhere else
+                        let fb = if self.rng.chance(1, 2) {
+                            self.feat("rpx-in-var-fallback");
+                            self.feat("rpx");
+                            format!("{}rpx", self.number())
+                        } else {
+                            self.value(depth + 1)
+                        };
+                        format!("{}(--{},{}{})", f, self.ident(), self.ows(), fb)
                     }
                 } else {
                     let mut a = self.value(depth + 1);
@@ -1234,7 +1242,8 @@ impl<'a> Gen<'a> {
             rpx_ratio: *self.rng.pick(&ratios),
             import_sign: self.rng.pick(&isigns).map(|x| x.to_string()),
             convert_host: host,
-            host_is: if host { self.rng.pick(&his).map(|x| unesc(x).replace("\\\"", "\"")) } else { None },
+            // (host_is is also given without conversion: it must not switch conversion on)
+            host_is: if host || self.rng.chance(1, 3) { self.rng.pick(&his).map(|x| unesc(x).replace("\\\"", "\"")) } else { None },
         }
     }
 }
